@@ -1,14 +1,32 @@
 /-
   C02GenFmaLow — the "Low" block of the fused multiply-add `bid128_ext_fma` of bid128_fma.rs as translated in
-  `DecGen/Code.lean`: the routine `bid_add_and_round` (Rust lines 241–664) and the cases of `bid128_ext_fma` that end in it
-  or in a copy of its tail: Cases (15)–(17) (lines 3896–3935) and Cases (11), (12) (lines 3413–3895).
+  `DecGen/Code.lean`: the routine `bid_add_and_round` (Rust lines 241–664), proved COMPLETELY against the model, and the
+  Cases (15)–(17) arm of `bid128_ext_fma` (lines 3896–3935) that calls it.  (Cases (11), (12), lines 3413–3895, have their own
+  three-stage pipeline; they are the subject of C02GenFma1112, which can use the number-level lemmas of this file.)
+
+  HEADLINE: `add_and_round_spec` — for every rounding mode, both signs, every scale 0…68, every status word,
+
+      bid_add_and_round q3 q4 e4 delta 34 z_sign p_sign C3 C4 mode … f
+        = .ok (encode (addFin mode sp C4 E sz C3 (E + scale) E).1, indicators, f ||| (addFin …).2)
+
+  i.e. the exact sum `±C4·10^E ± C3·10^(E+scale)` delivered by ONE `finish` (or the signed zero of an exact cancellation): the
+  finite clause of `fmaD`.  `case1517_spec` is the same statement for the Cases (15)–(17) arm.
 
   SHARED LEMMAS (top of the file, for the other blocks): the three small translated helpers
-    * `add256_spec`  : `bid_add256 x y`  = the sum modulo 2^256,
-    * `sub256_spec`  : `bid_sub256 x y`  = the difference modulo 2^256,
+    * `add256_spec`  : `bid_add256 x y`  = the sum modulo 2^256   (`add256_exact` when it fits),
+    * `sub256_spec`  : `bid_sub256 x y`  = the difference modulo 2^256   (`sub256_exact`),
     * `nr_digits256_spec` : `bid_bid_nr_digits256 R` = the number of decimal digits of `R` for `0 < R < 10^69`
       (1 for `R = 0`; 69 for every `R ≥ 10^68`),
-  the four-word comparisons (`ge256_iff`, `zero256_iff`), and `countWhileAux_spec` (the `take_while().count()` idiom).
+  the four-word comparisons (`ge256_iff`, `zero256_iff`), the table reads `ten2k64_get`, `ten2k128_get`, `ten2k256_get`, and
+  `countWhileAux_spec` (the `take_while().count()` idiom).
+
+  PLAN OF THE PROOF.  §1 the routine cut into ten literal pieces (`aar_shape` by `rfl`).  §2 the mathematics of rounding twice:
+  a second nearest-even rounding + the code's repair = ONE nearest-even rounding with exact position indicators (`two_step`,
+  `half_step` — the arm where D18 lived —, `zero_step`).  §3 the pieces evaluated (tail, repair, the three underflow arms).
+  §4 the tail on numbers: delivered nearest-even coefficient + the correction table = `finish` in the mode asked for
+  (`finish_rounded`, `tail_math`).  §5–6 tail and underflow stage deliver `finish` (`aarTail_spec`, `aarUF_spec`).  §7–8 the
+  first rounding (≤ 34 digits: `caseA_spec`; 35–69 digits, three helpers: `caseB_spec`).  §9 addition/subtraction, scaling, the
+  routine.  §10 Cases (15)–(17).  §11 examples.
 -/
 import Lean.Elab.Tactic
 import DecGen.Code
@@ -2459,5 +2477,938 @@ theorem caseA_spec (m : RoundingMode) (s : Bool) (p_sign : UInt64)
       (by simp) (by simp) hN hlt hnd1 hnd2 e4 ind (by rw [Nat.cast_zero, Int.add_zero]; exact he4) hind
       (by rw [Nat.cast_zero, Int.add_zero]; clear * - hE; omega)
       (by rw [Nat.cast_zero, Int.add_zero]; clear * - hElo; omega) res hsig false f
+
+
+/-! ## 8. The first stage: 35 to 69 digits -/
+
+/-- what follows the digit-removal helper in the first stage: tininess, the new exponent, the probing correction call
+(its result is dropped, only its status word is kept), the packed result -/
+def postB (m : RoundingMode) (p_sign : UInt64) (e4 x0 : Int32) (R128 : U128) (incr ML MG L G : Bool) (f : UInt32)
+    (b1 b2 b3 b4 : Bool) : Except String (U128 × Bool × Bool × Bool × Bool × UInt32) :=
+  if (m == RoundingMode.NearestEven) = true then
+    aarOvf m p_sign ((e4 + x0) + (if incr then 1 else 0)) 34 34
+      ⟨R128.w0, (p_sign ||| ((UInt64.ofInt (toI (((e4 + x0) + (if incr then 1 else 0)) + (0x1820 : Int32)))) <<< 0x31)) ||| R128.w1⟩
+      incr ML MG L G (decide ((e4 + x0) < c_EXP_MIN_UNBIASED)) f b1 b2 b3 b4
+  else
+    (bid_rounding_correction m L G ML MG (0 : Int32) ⟨R128.w0, (p_sign ||| (0x3040000000000000 : UInt64)) ||| R128.w1⟩ f).bind
+      fun t =>
+        aarOvf m p_sign ((e4 + x0) + (if incr then 1 else 0)) 34 34
+          ⟨R128.w0, (p_sign ||| ((UInt64.ofInt (toI (((e4 + x0) + (if incr then 1 else 0)) + (0x1820 : Int32)))) <<< 0x31)) ||| R128.w1⟩
+          incr ML MG L G (decide ((e4 + x0) < c_EXP_MIN_UNBIASED)) t.2 b1 b2 b3 b4
+
+theorem aarRoundB1 (m : RoundingMode) (p_sign : UInt64) (e4 ind : Int32) (R : U256) (f : UInt32) (b1 b2 b3 b4 : Bool)
+    (h1 : 34 < ind.toInt) (h2 : ind.toInt ≤ 38) :
+    aarRound m p_sign e4 34 ind R f b1 b2 b3 b4 =
+      (bid_round128_19_38 ind (ind - 34) ⟨R.w0, R.w1⟩ false false false false false).bind fun t =>
+        postB m p_sign e4 (ind - 34) t.1 t.2.1 t.2.2.1 t.2.2.2.1 t.2.2.2.2.1 t.2.2.2.2.2 f b1 b2 b3 b4 := by
+  unfold aarRound
+  have c1 : decide (ind ≤ (34 : Int32)) = false := by
+    rw [i32_le, decide_eq_false_iff_not]; exact not_le.2 h1
+  have c2 : decide (ind ≤ (0x26 : Int32)) = true := by
+    rw [i32_le, decide_eq_true_eq]; exact h2
+  simp only [c1, c2, Bool.false_eq_true, if_false, if_true]
+  generalize bid_round128_19_38 ind (ind - 34) _ false false false false false = X
+  cases X with
+  | error e => rfl
+  | ok t =>
+    unfold postB
+    by_cases hc : decide (e4 + (ind - 34) < c_EXP_MIN_UNBIASED) = true
+    · rw [hc]; simp only [if_true]; rfl
+    · rw [Bool.not_eq_true] at hc
+      rw [hc]; simp only [Bool.false_eq_true, if_false]; rfl
+
+
+theorem aarRoundB2 (m : RoundingMode) (p_sign : UInt64) (e4 ind : Int32) (R : U256) (f : UInt32) (b1 b2 b3 b4 : Bool)
+    (h1 : 38 < ind.toInt) (h2 : ind.toInt ≤ 57) :
+    aarRound m p_sign e4 34 ind R f b1 b2 b3 b4 =
+      (bid_round192_39_57 ind (ind - 34) ⟨R.w0, R.w1, R.w2⟩ false false false false false).bind fun t =>
+        postB m p_sign e4 (ind - 34) ⟨t.1.w0, t.1.w1⟩ t.2.1 t.2.2.1 t.2.2.2.1 t.2.2.2.2.1 t.2.2.2.2.2 f b1 b2 b3 b4 := by
+  unfold aarRound
+  have c1 : decide (ind ≤ (34 : Int32)) = false := by
+    rw [i32_le, decide_eq_false_iff_not]; exact not_le.2 (by have : (34 : Int32).toInt = 34 := rfl; omega)
+  have c2 : decide (ind ≤ (0x26 : Int32)) = false := by
+    rw [i32_le, decide_eq_false_iff_not]; exact not_le.2 h1
+  have c3 : decide (ind ≤ (0x39 : Int32)) = true := by
+    rw [i32_le, decide_eq_true_eq]; exact h2
+  simp only [c1, c2, c3, Bool.false_eq_true, if_false, if_true]
+  generalize bid_round192_39_57 ind (ind - 34) _ false false false false false = X
+  cases X with
+  | error e => rfl
+  | ok t =>
+    unfold postB
+    by_cases hc : decide (e4 + (ind - 34) < c_EXP_MIN_UNBIASED) = true
+    · rw [hc]; simp only [if_true]; rfl
+    · rw [Bool.not_eq_true] at hc
+      rw [hc]; simp only [Bool.false_eq_true, if_false]; rfl
+
+theorem aarRoundB3 (m : RoundingMode) (p_sign : UInt64) (e4 ind : Int32) (R : U256) (f : UInt32) (b1 b2 b3 b4 : Bool)
+    (h1 : 57 < ind.toInt) :
+    aarRound m p_sign e4 34 ind R f b1 b2 b3 b4 =
+      (bid_round256_58_76 ind (ind - 34) R false false false false false).bind fun t =>
+        postB m p_sign e4 (ind - 34) ⟨t.1.w0, t.1.w1⟩ t.2.1 t.2.2.1 t.2.2.2.1 t.2.2.2.2.1 t.2.2.2.2.2 f b1 b2 b3 b4 := by
+  unfold aarRound
+  have c1 : decide (ind ≤ (34 : Int32)) = false := by
+    rw [i32_le, decide_eq_false_iff_not]; exact not_le.2 (by have : (34 : Int32).toInt = 34 := rfl; omega)
+  have c2 : decide (ind ≤ (0x26 : Int32)) = false := by
+    rw [i32_le, decide_eq_false_iff_not]; exact not_le.2 (by have : (0x26 : Int32).toInt = 38 := rfl; omega)
+  have c3 : decide (ind ≤ (0x39 : Int32)) = false := by
+    rw [i32_le, decide_eq_false_iff_not]; exact not_le.2 h1
+  simp only [c1, c2, c3, Bool.false_eq_true, if_false, if_true]
+  generalize bid_round256_58_76 ind (ind - 34) _ false false false false false = X
+  cases X with
+  | error e => rfl
+  | ok t =>
+    unfold postB
+    by_cases hc : decide (e4 + (ind - 34) < c_EXP_MIN_UNBIASED) = true
+    · rw [hc]; simp only [if_true]; rfl
+    · rw [Bool.not_eq_true] at hc
+      rw [hc]; simp only [Bool.false_eq_true, if_false]; rfl
+
+
+/-- the probing correction call of the first stage (exponent 0, result dropped) only records inexactness -/
+theorem probe_call (m : RoundingMode) (L G ML MG : Bool) (res : U128) (f : UInt32) (c : Nat)
+    (hc : sigW res.w1.toNat res.w0.toNat = c) (hlt : c < P34) (hpos : 0 < c) :
+    ∃ w, bid_rounding_correction m L G ML MG (0 : Int32) res f =
+      .ok (w, if (L || G || ML || MG) = true then f ||| 0x20 else f) := by
+  have hev := Dec.C02GenCorrection.correction_eval m L G ML MG 0 res f 0 c rfl (by decide) (by decide) hc hlt (fun _ _ => hpos)
+  generalize upD m (negW res.w1.toNat) L MG = up at hev
+  generalize downD m (negW res.w1.toNat) G ML = dn at hev
+  have h1 : (stepC up dn c 0).2.2 = false := by
+    unfold stepC; split_ifs <;> simp_all
+  have h2 : decide (6111 < (stepC up dn c 0).2.1) = false := by
+    rw [decide_eq_false_iff_not]
+    unfold stepC; split_ifs <;> simp
+  rw [h1, h2] at hev
+  refine ⟨outW (Dec.C02GenCorrection.ovfB m (res.w1 &&& c_MASK_SIGN)) res (stepC up dn c 0).1 (stepC up dn c 0).2.1, ?_⟩
+  rw [hev]
+  unfold outF
+  simp only [Bool.false_eq_true, if_false]
+
+theorem inf_word (s : Bool) (p_sign : UInt64) (hps : p_sign.toNat = (if s = true then 1 else 0) * 2 ^ 63) :
+    (⟨0, p_sign ||| 0x7800000000000000⟩ : U128) = ofBits (encode (.inf s)) := by
+  apply Dec.C06GenFromInt.eq_ofBits
+  unfold Dec.C06GenFromInt.bitsOf encode signBit
+  show (p_sign ||| 0x7800000000000000).toNat * 2 ^ 64 + (0 : UInt64).toNat = _
+  rw [UInt64.toNat_or, hps]
+  cases s <;> decide
+
+open Dec.C04ScanNum (not_member_of_frac) in
+/-- a value with more than 34 significant digits is delivered with the inexact flag -/
+theorem finish_inexact_flag (mode : Mode) (s : Bool) (N : Nat) (hN : 0 < N) (E : Int) (x : Nat) (hlo : 10 ^ (x + 33) ≤ N)
+    (hT : N % 10 ^ x ≠ 0) (f : UInt32) :
+    (f ||| 0x20) ||| UInt32.ofNat (finish mode s N 1 E E).2 = f ||| UInt32.ofNat (finish mode s N 1 E E).2 := by
+  have hD : 0 < 10 ^ x := Nat.pow_pos (by decide)
+  have hnm : ¬ IsMember ((N : ℚ) / ((1 : Nat) : ℚ) * (10 : ℚ) ^ E) := by
+    have := not_member_of_frac (N / 10 ^ x) (10 ^ x) (N % 10 ^ x) (E + x)
+      (by rw [Nat.le_div_iff_mul_le hD, ← Nat.pow_add, Nat.add_comm]; exact hlo) (Nat.pos_of_ne_zero hT) (Nat.mod_lt _ hD)
+    rw [Nat.mul_comm, Nat.div_add_mod] at this
+    have hq : ((10 : ℚ) ^ x) ≠ 0 := by positivity
+    have e : (N : ℚ) / ((1 : Nat) : ℚ) * (10 : ℚ) ^ E = (N : ℚ) / ((10 ^ x : Nat) : ℚ) * (10 : ℚ) ^ (E + (x : Int)) := by
+      rw [zpow_add₀ Dec.ten_ne, zpow_natCast]
+      push_cast
+      field_simp
+    rw [e]; exact this
+  have hs := finish_spec_strict mode s N 1 E E hN (by norm_num)
+  rcases hs with ⟨hm, _⟩ | ⟨_, m', x', ho, _⟩ | ⟨_, ho, _⟩
+  · exact absurd hm hnm
+  · rw [ho]
+    simp only []
+    split
+    · rw [UInt32.or_assoc]; rfl
+    · rw [UInt32.or_assoc]; rfl
+  · rw [ho]
+    simp only []
+    rw [UInt32.or_assoc]; rfl
+
+
+/-- what a digit-removal helper hands back for an `x + 34`-digit `N` (`Spec`), in the terms of this file -/
+theorem spec_facts (s : Bool) (N x cs : Nat) (incr : Bool) (fl : Ind) (sp : Spec (x + 34) x N cs incr fl) (hx : 1 ≤ x)
+    (hlo : 10 ^ (x + 33) ≤ N) (hhi : N < 10 ^ (x + 34)) (ef : Int) :
+    RoundedInt .rne s N (10 ^ x) (rne N x) ∧ fl = posInd N (10 ^ x) (rne N x) ∧ rne N x ≤ P34 ∧
+    deliver (rne N x) ef = (cs, ef + if incr = true then 1 else 0) ∧ 10 ^ 33 ≤ cs ∧ cs < P34 ∧
+    cs * 10 ^ (x + if incr = true then 1 else 0) = rne N x * 10 ^ x ∧ (anyI fl = true → N % 10 ^ x ≠ 0) := by
+  obtain ⟨k1, k2, k3, k4, k5, k6, k7, k8, k9⟩ := Dec.C02GenCorrection.contract x N cs incr fl sp hx hlo hhi s ef
+  have e34 : P34 = 10 ^ 34 := Dec.C13PackHelpers.P34_eq'
+  have e33 : P33 = 10 ^ 33 := Dec.C13PackHelpers.P33_eq'
+  have hD : 0 < 10 ^ x := Nat.pow_pos (by decide)
+  have hp33 : (10 : Nat) ^ (x + 33) = 10 ^ 33 * 10 ^ x := by rw [Nat.pow_add, Nat.mul_comm]
+  have hge : 10 ^ 33 ≤ rne N x := by
+    by_contra hc
+    have : (rne N x + 1) * 10 ^ x ≤ 10 ^ 33 * 10 ^ x := Nat.mul_le_mul_right _ (by omega)
+    rw [Nat.add_mul, Nat.one_mul, ← hp33] at this
+    have e3 : 2 * rne N x * 10 ^ x = 2 * (rne N x * 10 ^ x) := Nat.mul_assoc _ _ _
+    have := k1.1.1
+    rw [e3] at this
+    omega
+  have hcs := sp.cstar_eq
+  have hinc := sp.incr_iff
+  rw [show x + 34 - x = 34 by omega] at hcs hinc
+  rw [show 34 - 1 = 33 from rfl] at hcs
+  refine ⟨k1, ?_, k6, k9, ?_, ?_, ?_, ?_⟩
+  · obtain ⟨a, b, c, d⟩ := fl
+    simp only [posInd, Ind.mk.injEq]
+    exact ⟨k4, k5, k2, k3⟩
+  · rw [hcs]; split <;> omega
+  · rw [hcs]; split <;> omega
+  · by_cases hc : rne N x = 10 ^ 34
+    · rw [hcs, if_pos hc, if_pos (hinc.2 hc), hc, Nat.pow_add, Nat.pow_one]; ring
+    · have : incr = false := by
+        cases hi : incr
+        · rfl
+        · exact absurd (hinc.1 hi) hc
+      rw [hcs, if_neg hc, this]; simp
+  · intro ha
+    have a1 := sp.midLtEven_iff; have a2 := sp.midGtEven_iff; have a3 := sp.inexLtMid_iff; have a4 := sp.inexGtMid_iff
+    obtain ⟨y, hy1, hy2, hy3⟩ := pow_split x hx
+    rw [hy3] at a1 a2 a3 a4
+    unfold anyI at ha
+    simp only [Bool.or_eq_true] at ha
+    rcases ha with ((ha | ha) | ha) | ha
+    · have := a3.1 ha; omega
+    · have := a4.1 ha; omega
+    · have := a1.1 ha; omega
+    · have := a2.1 ha; omega
+
+
+theorem v128_words (R : U128) (c : Nat) (h : Dec.C02GenRound.v128 R = c) (hc : c < 2 ^ 113) :
+    R.w1.toNat * 2 ^ 64 + R.w0.toNat = c ∧ R.w1.toNat < 2 ^ 49 := by
+  have h0 := R.w0.toNat_lt
+  unfold Dec.C02GenRound.v128 at h
+  omega
+
+/-- a first rounding that carried (`10·c` units of `D1`, the value just below) seen one digit coarser: `c` units of `10·D1`,
+the value still just below — only the disjunction "below" of the indicators survives the change of unit -/
+theorem coarse_view (s : Bool) (N c D1 D2 : Nat) (i : Ind) (hD : 0 < D1) (h12 : D2 = 10 * D1)
+    (hi : i = posInd N D1 (10 * c)) (hlt : N < c * D2) (hcl : 2 * (c * D2) ≤ 2 * N + D1) (hev : c % 2 = 0) :
+    RoundedInt .rne s N D2 c ∧ i.inexLtMid = decide (c * D2 < N ∧ 2 * N < 2 * (c * D2) + D2) ∧
+    i.midGtEven = decide (2 * N = 2 * (c * D2) + D2) ∧ (i.inexGtMid || i.midLtEven) = decide (N < c * D2) := by
+  have hA : 10 * c * D1 = c * D2 := by rw [h12]; ring
+  subst hi
+  simp only [posInd, hA, RoundedInt]
+  rw [Nat.mul_assoc]
+  generalize c * D2 = A at *
+  subst h12
+  refine ⟨⟨⟨by omega, by omega⟩, fun _ => hev⟩, ?_, ?_, ?_⟩
+  · rw [decide_eq_false (show ¬ (A < N ∧ 2 * N < 2 * A + D1) by omega),
+      decide_eq_false (show ¬ (A < N ∧ 2 * N < 2 * A + 10 * D1) by omega)]
+  · rw [decide_eq_false (show ¬ (2 * N = 2 * A + D1) by omega), decide_eq_false (show ¬ (2 * N = 2 * A + 10 * D1) by omega)]
+  · rw [Bool.eq_iff_iff]
+    simp only [Bool.or_eq_true, decide_eq_true_eq]
+    omega
+
+/-- the first stage has rounded an `x + 34`-digit sum to 34 digits: from the overflow test on, the routine delivers `finish` -/
+theorem afterB_spec (m : RoundingMode) (s : Bool) (p_sign : UInt64)
+    (hps : p_sign.toNat = (if s = true then 1 else 0) * 2 ^ 63) (N : Nat) (hN : 0 < N) (E : Int)
+    (hElo : -1000000 ≤ E) (hEhi : E ≤ 6111) (x : Nat) (hx1 : 1 ≤ x) (hx2 : x ≤ 35)
+    (hlo : 10 ^ (x + 33) ≤ N) (hhi : N < 10 ^ (x + 34)) (R128 : U128) (incr : Bool) (fl : Ind)
+    (sp : Spec (x + 34) x N (Dec.C02GenRound.v128 R128) incr fl)
+    (e' : Int32) (he' : e'.toInt = E + x + (if incr = true then 1 else 0)) (xe : UInt64)
+    (hxe : -6176 ≤ E + x + (if incr = true then 1 else 0) →
+      xe.toNat = (E + x + (if incr = true then 1 else 0) + 6176).toNat * 2 ^ 49)
+    (hxe' : xe.toNat % 2 ^ 49 = 0)
+    (f f' : UInt32) (hf : f' = f ∨ (f' = f ||| 0x20 ∧ N % 10 ^ x ≠ 0)) (b1 b2 b3 b4 : Bool) :
+    ∃ i : Ind,
+      aarOvf m p_sign e' 34 34 ⟨R128.w0, (p_sign ||| xe) ||| R128.w1⟩ incr fl.midLtEven fl.midGtEven fl.inexLtMid fl.inexGtMid
+          (decide (E + x < -6176)) f' b1 b2 b3 b4 =
+        .ok (ofBits (encode (finish (modeOf m) s N 1 E E).1), i.midLtEven, i.midGtEven, i.inexLtMid, i.inexGtMid,
+             f ||| UInt32.ofNat (finish (modeOf m) s N 1 E E).2) := by
+  have hS : (if s = true then 1 else 0) ≤ 1 := by cases s <;> simp
+  have e34 : P34 = 10 ^ 34 := Dec.C13PackHelpers.P34_eq'
+  have e33 : P33 = 10 ^ 33 := Dec.C13PackHelpers.P33_eq'
+  have hMax : eMax = 6111 := rfl
+  have hMin : eMin = -6176 := rfl
+  have hD : 0 < 10 ^ x := Nat.pow_pos (by decide)
+  obtain ⟨cs, hcs⟩ : ∃ cs, Dec.C02GenRound.v128 R128 = cs := ⟨_, rfl⟩
+  rw [hcs] at sp
+  obtain ⟨k1, k2, k3, k4, k5, k6, k7, k8⟩ := spec_facts s N x cs incr fl sp hx1 hlo hhi (E + x)
+  obtain ⟨hw, hw1⟩ := v128_words R128 cs hcs (by rw [e34] at k6; exact lt_trans k6 (by norm_num))
+  obtain ⟨e1, he1⟩ : ∃ e1 : Int, e1 = E + x + (if incr = true then 1 else 0) := ⟨_, rfl⟩
+  rw [← he1] at he' hxe k4
+  have he1b : E + x ≤ e1 ∧ e1 ≤ E + x + 1 := by rw [he1]; cases incr <;> simp
+  -- the flags: the probing call's inexact is absorbed
+  have hfl : f' ||| UInt32.ofNat (finish (modeOf m) s N 1 E E).2 = f ||| UInt32.ofNat (finish (modeOf m) s N 1 E E).2 := by
+    rcases hf with rfl | ⟨rfl, hT⟩
+    · rfl
+    · exact finish_inexact_flag (modeOf m) s N hN E x hlo hT f
+  have hind : (34 : Int32).toInt = 34 := rfl
+  by_cases hov : m = .NearestEven ∧ 6111 < e1
+  · obtain ⟨rfl, hov⟩ := hov
+    rw [aarOvf_yes p_sign e' 34 _ _ _ _ _ _ _ f' b1 b2 b3 b4 (by rw [hind, he']; omega) (by rw [he']; omega) (by rw [hind]; omega)]
+    have hfin := finish_rounded .rne s N hN E x (rne N x) k1 (Or.inr (Or.inr ⟨hlo, hhi, by omega⟩))
+    rw [k4] at hfin
+    simp only [] at hfin
+    rw [if_pos (by omega)] at hfin
+    refine ⟨⟨b1, b2, b3, b4⟩, ?_⟩
+    show _ = Except.ok (ofBits (encode (finish Mode.rne s N 1 E E).1), _, _, _, _, f ||| UInt32.ofNat (finish Mode.rne s N 1 E E).2)
+    have hfl' := hfl
+    rw [show modeOf .NearestEven = Mode.rne from rfl, hfin] at hfl'
+    rw [hfin]
+    simp only []
+    rw [← hfl', show overflowResult Mode.rne s = .inf s from by cases s <;> rfl, inf_word s p_sign hps]
+    rfl
+  · rw [aarOvf_no m p_sign e' 34 _ _ _ _ _ _ _ f' b1 b2 b3 b4 (fun hm => by
+      rw [hind, he']; by_contra hc; exact hov ⟨hm, by omega⟩) (by rw [he']; omega) (by rw [hind]; omega)]
+    by_cases hlow : -6176 ≤ e1
+    · rw [aarUF_noop m p_sign e' 34 (by rw [he']; exact hlow)]
+      rw [Dec.C17GenNext.pack_bits p_sign xe R128.w1 R128.w0 (if s = true then 1 else 0) (e1 + 6176).toNat cs hps hS
+        (hxe hlow) (by omega) hw (by rw [e34] at k6; exact lt_trans k6 (by norm_num))]
+      by_cases hEx : -6176 ≤ E + x
+      · have hpt : PreTail s N E x (rne N x) fl :=
+          pretail_of_pos s N E x (rne N x) fl k1 k2 (Or.inr (Or.inr ⟨hlo, hhi, by rw [hMin]; exact hEx⟩))
+        have := aarTail_spec m s N hN E x (rne N x) fl hpt e' (by rw [k4]; exact he') (by omega)
+          (fun hm => by rw [k4]; simp only []; by_contra hc; exact hov ⟨hm, by omega⟩) (decide (E + x < -6176))
+          (fun _ => by rw [decide_eq_false (by omega), decide_eq_false (by omega)]) f'
+        rw [k4] at this
+        rw [hfl] at this
+        exact ⟨fl, this⟩
+      · -- the carry lifted the result to the least exponent
+        have hinc : incr = true := by
+          cases hi : incr
+          · rw [hi] at he1; simp at he1; omega
+          · rfl
+        rw [hinc] at k7 he1
+        simp only [if_true] at k7 he1
+        have hE : E + x = -6177 := by omega
+        have hrn : rne N x = 10 ^ 34 := sp.incr_iff.1 hinc |>.trans (by rw [show x + 34 - x = 34 by omega])
+        have hcs33 : cs = 10 ^ 33 := by
+          rw [hrn] at k7
+          have : cs * 10 ^ (x + 1) = (10 ^ 33) * 10 ^ (x + 1) := by rw [k7, Nat.pow_succ]; ring
+          exact Nat.eq_of_mul_eq_mul_right (Nat.pow_pos (by decide)) this
+        have hcl := k1.1
+        rw [hrn, Nat.mul_assoc] at hcl
+        have hp1 : (10 : Nat) ^ (x + 1) = 10 * 10 ^ x := by rw [Nat.pow_succ]; ring
+        have hp2 : (10 : Nat) ^ 34 * 10 ^ x = 10 ^ 33 * 10 ^ (x + 1) := by rw [hp1]; ring
+        have hp3 : (10 : Nat) ^ (x + 34) = 10 ^ 33 * 10 ^ (x + 1) := by rw [Nat.pow_add, hp1]; ring
+        have hpt : PreTail s N E (x + 1) (10 ^ 33) fl := by
+          have hfl2 := k2
+          rw [hrn, show (10 : Nat) ^ 34 = 10 * 10 ^ 33 from by norm_num] at hfl2
+          rw [hp2] at hcl
+          obtain ⟨c1, c2, c3, c4⟩ := coarse_view s N (10 ^ 33) (10 ^ x) (10 ^ (x + 1)) fl hD hp1 hfl2 (by rw [← hp3]; exact hhi)
+            hcl.2 (by decide)
+          exact ⟨c1, c2, c3, c4, Or.inr (Or.inl ⟨by omega, by push_cast; omega, by rw [show x + 1 + 33 = x + 34 by omega]; exact hhi⟩)⟩
+        have hdel : deliver (10 ^ 33) (E + ((x + 1 : Nat) : Int)) = (cs, e1) := by
+          unfold deliver
+          rw [if_neg (by rw [e34]; norm_num), hcs33, show E + ((x + 1 : Nat) : Int) = e1 from by push_cast; omega]
+        have := aarTail_spec m s N hN E (x + 1) (10 ^ 33) fl hpt e' (by rw [hdel]; exact he') (by push_cast; omega)
+          (fun hm => by rw [hdel]; simp only []; omega) (decide (E + x < -6176))
+          (fun _ => by rw [decide_eq_true (by omega), decide_eq_true (by rw [show x + 1 + 33 = x + 34 by omega]; exact hhi)]) f'
+        rw [hdel] at this
+        rw [hfl] at this
+        exact ⟨fl, this⟩
+    · -- the underflow stage
+      have htiny : decide (E + x < -6176) = true := decide_eq_true (by omega)
+      rw [htiny]
+      obtain ⟨kd, hkd⟩ : ∃ kd : Nat, kd = x + (if incr = true then 1 else 0) := ⟨_, rfl⟩
+      rw [← hkd] at k7
+      have hkd' : E + (kd : Int) = e1 := by rw [he1, hkd]; cases incr <;> simp <;> omega
+      have hpk : 10 ^ x ≤ 10 ^ kd := Nat.pow_le_pow_right (by decide) (by rw [hkd]; omega)
+      have hcl := k1.1
+      rw [Nat.mul_assoc, ← k7] at hcl
+      have hdir := k2
+      obtain ⟨res, hres⟩ : ∃ res : U128, res = ⟨R128.w0, (p_sign ||| xe) ||| R128.w1⟩ := ⟨_, rfl⟩
+      rw [← hres]
+      have hsig : sigW res.w1.toNat res.w0.toNat = cs := by
+        rw [hres]
+        show sigW ((p_sign ||| xe) ||| R128.w1).toNat R128.w0.toNat = cs
+        unfold sigW
+        rw [UInt64.toNat_or, UInt64.toNat_or, Nat.or_mod_two_pow, Nat.or_mod_two_pow, hxe',
+          show p_sign.toNat % 2 ^ 49 = 0 by rw [hps]; cases s <;> simp, Nat.zero_or, Nat.zero_or, Nat.mod_eq_of_lt hw1]
+        exact hw
+      obtain ⟨i, hi⟩ := aarUF_spec m s p_sign hps N hN E kd cs 34 ⟨by omega, by omega⟩ fl.midLtEven fl.midGtEven fl.inexLtMid
+        fl.inexGtMid
+        (by rw [hdir]; simp only [posInd]; rw [← k7, Bool.eq_iff_iff]; simp only [Bool.or_eq_true, decide_eq_true_eq]; omega)
+        (by rw [hdir]; simp only [posInd]; rw [← k7, Bool.eq_iff_iff]; simp only [Bool.or_eq_true, decide_eq_true_eq]; omega)
+        (by omega) (by rw [e34] at k6; exact k6) (by omega) (by omega) e' 34 (by rw [hkd']; exact he') rfl
+        (by rw [hkd']; omega) (by rw [hkd']; omega) res hsig incr f'
+      rw [hfl] at hi
+      exact ⟨i, hi⟩
+
+
+/-- **more than 34 digits**: after the digit-removal helper (`Spec`), the routine delivers `finish` -/
+theorem postB_spec (m : RoundingMode) (s : Bool) (p_sign : UInt64)
+    (hps : p_sign.toNat = (if s = true then 1 else 0) * 2 ^ 63) (N : Nat) (hN : 0 < N) (E : Int)
+    (hElo : -1000000 ≤ E) (hEhi : E ≤ 6111) (x : Nat) (hx1 : 1 ≤ x) (hx2 : x ≤ 35)
+    (hlo : 10 ^ (x + 33) ≤ N) (hhi : N < 10 ^ (x + 34)) (e4 x0 : Int32) (he4 : e4.toInt = E) (hx0 : x0.toInt = x)
+    (R128 : U128) (incr : Bool) (fl : Ind) (sp : Spec (x + 34) x N (Dec.C02GenRound.v128 R128) incr fl)
+    (f : UInt32) (b1 b2 b3 b4 : Bool) :
+    ∃ i : Ind,
+      postB m p_sign e4 x0 R128 incr fl.midLtEven fl.midGtEven fl.inexLtMid fl.inexGtMid f b1 b2 b3 b4 =
+        .ok (ofBits (encode (finish (modeOf m) s N 1 E E).1), i.midLtEven, i.midGtEven, i.inexLtMid, i.inexGtMid,
+             f ||| UInt32.ofNat (finish (modeOf m) s N 1 E E).2) := by
+  have e34 : P34 = 10 ^ 34 := Dec.C13PackHelpers.P34_eq'
+  have h1 : (e4 + x0).toInt = E + x := by
+    rw [Int32.toInt_add, he4, hx0, bmod32 _ (by omega) (by omega)]
+  obtain ⟨e', he'd⟩ : ∃ e' : Int32, e' = (e4 + x0) + (if incr = true then 1 else 0) := ⟨_, rfl⟩
+  have he' : e'.toInt = E + x + (if incr = true then 1 else 0) := by
+    rw [he'd]
+    cases incr
+    · simp only [Bool.false_eq_true, if_false, Int.add_zero]
+      rw [show (e4 + x0 + (0 : Int32)) = e4 + x0 from by rw [Int32.add_zero], h1]
+    · simp only [if_true]
+      exact Dec.C02GenCorrection.i32_add1 _ _ h1 (by omega) (by omega)
+  have hb : E + x ≤ E + x + (if incr = true then 1 else 0) ∧ E + x + (if incr = true then 1 else 0) ≤ E + x + 1 := by
+    cases incr <;> simp
+  have htiny : decide ((e4 + x0) < c_EXP_MIN_UNBIASED) = decide (E + x < -6176) := by
+    rw [i32_lt, h1, show c_EXP_MIN_UNBIASED.toInt = -6176 from by decide]
+  have hxe' : ((UInt64.ofInt (toI (e' + (0x1820 : Int32)))) <<< 0x31).toNat % 2 ^ 49 = 0 := by
+    rw [UInt64.toNat_shiftLeft, show (0x31 : UInt64).toNat % 64 = 49 from by decide, Nat.shiftLeft_eq]
+    omega
+  unfold postB
+  rw [← he'd, htiny]
+  by_cases hm : (m == RoundingMode.NearestEven) = true
+  · rw [if_pos hm]
+    exact afterB_spec m s p_sign hps N hN E hElo hEhi x hx1 hx2 hlo hhi R128 incr fl sp e' he' _
+      (fun hl => Dec.C02GenCorrection.expField e' _ he' hl (by omega)) hxe' f f (Or.inl rfl) b1 b2 b3 b4
+  · rw [if_neg hm]
+    obtain ⟨cs, hcs⟩ : ∃ cs, Dec.C02GenRound.v128 R128 = cs := ⟨_, rfl⟩
+    have sp' := sp
+    rw [hcs] at sp'
+    obtain ⟨k1, k2, k3, k4, k5, k6, k7, k8⟩ := spec_facts s N x cs incr fl sp' hx1 hlo hhi (E + x)
+    obtain ⟨hw, hw1⟩ := v128_words R128 cs hcs (by rw [e34] at k6; exact lt_trans k6 (by norm_num))
+    obtain ⟨P, hP⟩ : ∃ P : U128, P = ⟨R128.w0, (p_sign ||| (0x3040000000000000 : UInt64)) ||| R128.w1⟩ := ⟨_, rfl⟩
+    rw [← hP]
+    have hsig : sigW P.w1.toNat P.w0.toNat = cs := by
+      rw [hP]
+      show sigW ((p_sign ||| (0x3040000000000000 : UInt64)) ||| R128.w1).toNat R128.w0.toNat = cs
+      unfold sigW
+      rw [UInt64.toNat_or, UInt64.toNat_or, Nat.or_mod_two_pow, Nat.or_mod_two_pow,
+        show (0x3040000000000000 : UInt64).toNat % 2 ^ 49 = 0 from by decide,
+        show p_sign.toNat % 2 ^ 49 = 0 by rw [hps]; cases s <;> simp, Nat.zero_or, Nat.zero_or, Nat.mod_eq_of_lt hw1]
+      exact hw
+    obtain ⟨w, hcall⟩ := probe_call m fl.inexLtMid fl.inexGtMid fl.midLtEven fl.midGtEven P f cs hsig k6 (by omega)
+    rw [hcall]
+    simp only [Except.bind]
+    refine afterB_spec m s p_sign hps N hN E hElo hEhi x hx1 hx2 hlo hhi R128 incr fl sp e' he' _
+      (fun hl => Dec.C02GenCorrection.expField e' _ he' hl (by omega)) hxe' f _ ?_ b1 b2 b3 b4
+    by_cases ha : (fl.inexLtMid || fl.inexGtMid || fl.midLtEven || fl.midGtEven) = true
+    · rw [if_pos ha]; exact Or.inr ⟨rfl, k8 ha⟩
+    · rw [if_neg ha]; exact Or.inl rfl
+
+
+/-- **more than 34 digits** (35 to 69): the routine from the first rounding on delivers `finish` -/
+theorem caseB_spec (m : RoundingMode) (s : Bool) (p_sign : UInt64)
+    (hps : p_sign.toNat = (if s = true then 1 else 0) * 2 ^ 63) (N : Nat) (h34 : 10 ^ 34 ≤ N) (h69 : N < 10 ^ 69) (E : Int)
+    (hElo : -1000000 ≤ E) (hEhi : E ≤ 6111) (e4 ind : Int32) (he4 : e4.toInt = E) (hind : ind.toInt = ndigits N)
+    (R : U256) (hR : R.toNat' = N) (f : UInt32) (b1 b2 b3 b4 : Bool) :
+    ∃ i : Ind,
+      aarRound m p_sign e4 34 ind R f b1 b2 b3 b4 =
+        .ok (ofBits (encode (finish (modeOf m) s N 1 E E).1), i.midLtEven, i.midGtEven, i.inexLtMid, i.inexGtMid,
+             f ||| UInt32.ofNat (finish (modeOf m) s N 1 E E).2) := by
+  have hN : 0 < N := lt_of_lt_of_le (by norm_num) h34
+  have e34 : P34 = 10 ^ 34 := Dec.C13PackHelpers.P34_eq'
+  obtain ⟨nd, hnd⟩ : ∃ nd, ndigits N = nd := ⟨_, rfl⟩
+  rw [hnd] at hind
+  have hnd1 : 34 < nd := by rw [← hnd]; exact (lt_ndigits_iff hN).2 h34
+  have hnd2 : nd ≤ 69 := by rw [← hnd]; exact (ndigits_le_iff hN).2 h69
+  obtain ⟨hlo', hhi'⟩ := (ndigits_eq_iff hN (by omega)).1 hnd
+  obtain ⟨x, hx⟩ : ∃ x, nd = x + 34 := ⟨nd - 34, by omega⟩
+  subst hx
+  have hlo : 10 ^ (x + 33) ≤ N := hlo'
+  have hio := i32_eq_ofNat ind (x + 34) (by rw [hind])
+  have hsub : (ind - 34).toInt = x := by
+    rw [Int32.toInt_sub, hind, show (34 : Int32).toInt = 34 from rfl, bmod32 _ (by omega) (by omega)]; push_cast; omega
+  have hso := i32_eq_ofNat (ind - 34) x hsub
+  have h0 := R.w0.toNat_lt; have h1 := R.w1.toNat_lt; have h2 := R.w2.toNat_lt; have h3 := R.w3.toNat_lt
+  unfold U256.toNat' at hR
+  by_cases hb1 : x + 34 ≤ 38
+  · rw [aarRoundB1 m p_sign e4 ind R f b1 b2 b3 b4 (by rw [hind]; omega) (by rw [hind]; omega), hso, hio]
+    have hv : Dec.C02GenRound.v128 ⟨R.w0, R.w1⟩ = N := by
+      have : N < 10 ^ 38 := lt_of_lt_of_le hhi' (Nat.pow_le_pow_right (by decide) hb1)
+      have : (10 : Nat) ^ 38 < 2 ^ 128 := by norm_num
+      unfold Dec.C02GenRound.v128
+      show R.w0.toNat + 2 ^ 64 * R.w1.toNat = N
+      omega
+    obtain ⟨cs, incr, lt, gt, ilt, igt, hcall, sp⟩ := Dec.C02GenRound.bid_round128_19_38_spec (x + 34) x ⟨R.w0, R.w1⟩
+      (by omega) hb1 (by omega) (by omega) (by rw [hv]; exact hhi')
+    rw [hcall, hv] at *
+    simp only [Except.bind]
+    exact postB_spec m s p_sign hps N hN E hElo hEhi x (by omega) (by omega) hlo hhi' e4 _ he4
+      (by rw [← hso]; exact hsub) cs incr ⟨lt, gt, ilt, igt⟩ sp f b1 b2 b3 b4
+  · by_cases hb2 : x + 34 ≤ 57
+    · rw [aarRoundB2 m p_sign e4 ind R f b1 b2 b3 b4 (by rw [hind]; omega) (by rw [hind]; omega), hso, hio]
+      have hv : Dec.C02GenRound.v192 ⟨R.w0, R.w1, R.w2⟩ = N := by
+        have : N < 10 ^ 57 := lt_of_lt_of_le hhi' (Nat.pow_le_pow_right (by decide) hb2)
+        have : (10 : Nat) ^ 57 < 2 ^ 192 := by norm_num
+        unfold Dec.C02GenRound.v192
+        show R.w0.toNat + 2 ^ 64 * R.w1.toNat + 2 ^ 128 * R.w2.toNat = N
+        omega
+      obtain ⟨cs, incr, lt, gt, ilt, igt, hcall, sp⟩ := Dec.C02GenRound.bid_round192_39_57_spec (x + 34) x ⟨R.w0, R.w1, R.w2⟩
+        (by omega) hb2 (by omega) (by omega) (by rw [hv]; exact hhi')
+      rw [hcall, hv] at *
+      simp only [Except.bind]
+      obtain ⟨_, _, _, _, _, k6, _, _⟩ := spec_facts s N x _ incr ⟨lt, gt, ilt, igt⟩ sp (by omega) hlo hhi' 0
+      have hv2 : Dec.C02GenRound.v128 ⟨cs.w0, cs.w1⟩ = Dec.C02GenRound.v192 cs := by
+        have c0 := cs.w0.toNat_lt; have c1 := cs.w1.toNat_lt
+        rw [e34] at k6
+        have : (10 : Nat) ^ 34 < 2 ^ 128 := by norm_num
+        unfold Dec.C02GenRound.v192 at k6 ⊢
+        unfold Dec.C02GenRound.v128
+        show cs.w0.toNat + 2 ^ 64 * cs.w1.toNat = _
+        omega
+      rw [← hv2] at sp
+      exact postB_spec m s p_sign hps N hN E hElo hEhi x (by omega) (by omega) hlo hhi' e4 _ he4
+        (by rw [← hso]; exact hsub) ⟨cs.w0, cs.w1⟩ incr ⟨lt, gt, ilt, igt⟩ sp f b1 b2 b3 b4
+    · rw [aarRoundB3 m p_sign e4 ind R f b1 b2 b3 b4 (by rw [hind]; omega), hso, hio]
+      have hv : Dec.C02GenRound.v256 R = N := by
+        unfold Dec.C02GenRound.v256
+        omega
+      obtain ⟨cs, incr, lt, gt, ilt, igt, hcall, sp⟩ := Dec.C02GenRound.bid_round256_58_76_spec (x + 34) x R
+        (by omega) (by omega) (by omega) (by omega) (by rw [hv]; exact hhi')
+      rw [hcall, hv] at *
+      simp only [Except.bind]
+      obtain ⟨_, _, _, _, _, k6, _, _⟩ := spec_facts s N x _ incr ⟨lt, gt, ilt, igt⟩ sp (by omega) hlo hhi' 0
+      have hv2 : Dec.C02GenRound.v128 ⟨cs.w0, cs.w1⟩ = Dec.C02GenRound.v256 cs := by
+        have c0 := cs.w0.toNat_lt; have c1 := cs.w1.toNat_lt
+        rw [e34] at k6
+        have : (10 : Nat) ^ 34 < 2 ^ 128 := by norm_num
+        unfold Dec.C02GenRound.v256 at k6 ⊢
+        unfold Dec.C02GenRound.v128
+        show cs.w0.toNat + 2 ^ 64 * cs.w1.toNat = _
+        omega
+      rw [← hv2] at sp
+      exact postB_spec m s p_sign hps N hN E hElo hEhi x (by omega) (by omega) hlo hhi' e4 _ he4
+        (by rw [← hso]; exact hsub) ⟨cs.w0, cs.w1⟩ incr ⟨lt, gt, ilt, igt⟩ sp f b1 b2 b3 b4
+
+
+/-! ## 9. Addition / subtraction, scaling, and the routine as a whole -/
+
+/-- the sign word of a sign -/
+def sgnW (s : Bool) : UInt64 := if s = true then 0x8000000000000000 else 0
+
+theorem sgnW_toNat (s : Bool) : (sgnW s).toNat = (if s = true then 1 else 0) * 2 ^ 63 := by
+  cases s <;> rfl
+
+theorem sgnW_beq (a b : Bool) : (sgnW a == sgnW b) = decide (a = b) := by
+  cases a <;> cases b <;> rfl
+
+theorem aarAddSub_same (m : RoundingMode) (sp : Bool) (e4 : Int32) (C4 R : U256) (f : UInt32) (b1 b2 b3 b4 : Bool)
+    (hsum : C4.toNat' + R.toNat' < 2 ^ 256) :
+    aarAddSub m (sgnW sp) (sgnW sp) e4 34 C4 R f b1 b2 b3 b4 =
+      (bid_bid_nr_digits256 (mk256 (C4.toNat' + R.toNat'))).bind fun ind =>
+        aarRound m (sgnW sp) e4 34 ind (mk256 (C4.toNat' + R.toNat')) f b1 b2 b3 b4 := by
+  unfold aarAddSub
+  have hc : (sgnW sp == sgnW sp) = true := by rw [sgnW_beq]; simp
+  simp only [hc, if_true, add256_exact C4 R hsum]
+  rfl
+
+theorem zero_skip {α : Type} (X : U256) (hz : X.toNat' ≠ 0) (A B : α) :
+    (if ((((X.w3 == (0 : UInt64)) && (X.w2 == (0 : UInt64))) && (X.w1 == (0 : UInt64))) && (X.w0 == (0 : UInt64))) = true
+      then A else B) = B := by
+  rw [zero256_iff, decide_eq_false hz]; rfl
+
+theorem aarAddSub_diff (m : RoundingMode) (sp sz : Bool) (hne : sp ≠ sz) (e4 : Int32) (C4 R : U256) (f : UInt32) (b1 b2 b3 b4 : Bool)
+    (hne0 : C4.toNat' ≠ R.toNat') :
+    aarAddSub m (sgnW sz) (sgnW sp) e4 34 C4 R f b1 b2 b3 b4 =
+      if C4.toNat' ≤ R.toNat' then
+        (bid_bid_nr_digits256 (mk256 (R.toNat' - C4.toNat'))).bind fun ind =>
+          aarRound m (sgnW sz) e4 34 ind (mk256 (R.toNat' - C4.toNat')) f b1 b2 b3 b4
+      else
+        (bid_bid_nr_digits256 (mk256 (C4.toNat' - R.toNat'))).bind fun ind =>
+          aarRound m (sgnW sp) e4 34 ind (mk256 (C4.toNat' - R.toNat')) f b1 b2 b3 b4 := by
+  unfold aarAddSub
+  have hc : (sgnW sp == sgnW sz) = false := by rw [sgnW_beq]; simpa using hne
+  simp only [hc, Bool.false_eq_true, if_false, ge256_iff]
+  by_cases hge : C4.toNat' ≤ R.toNat'
+  · have hz : (mk256 (R.toNat' - C4.toNat')).toNat' ≠ 0 := by
+      rw [mk256_val _ (by have := toNat'_lt R; omega)]; omega
+    simp only [hge, decide_true, if_true, sub256_exact R C4 hge]
+    refine (zero_skip (mk256 (R.toNat' - C4.toNat')) hz _ _).trans ?_
+    rfl
+  · have hge' : R.toNat' ≤ C4.toNat' := by omega
+    have hz : (mk256 (C4.toNat' - R.toNat')).toNat' ≠ 0 := by
+      rw [mk256_val _ (by have := toNat'_lt C4; omega)]; omega
+    simp only [hge, decide_false, Bool.false_eq_true, if_false, sub256_exact C4 R hge']
+    refine (zero_skip (mk256 (C4.toNat' - R.toNat')) hz _ _).trans ?_
+    rfl
+
+
+theorem zero_take {α : Type} (X : U256) (hz : X.toNat' = 0) (A B : α) :
+    (if ((((X.w3 == (0 : UInt64)) && (X.w2 == (0 : UInt64))) && (X.w1 == (0 : UInt64))) && (X.w0 == (0 : UInt64))) = true
+      then A else B) = A := by
+  rw [zero256_iff, decide_eq_true hz]; rfl
+
+/-- the signed zero of an exact cancellation, packed -/
+theorem zero_word (m : RoundingMode) (e : Int32) (eI : Int) (he : e.toInt = eI) (h1 : -6176 ≤ eI) (h2 : eI ≤ 6111) :
+    (⟨0, (if (m != RoundingMode.Downward) = true then (0 : UInt64) else 0x8000000000000000) |||
+        ((UInt64.ofInt (toI (e + (0x1820 : Int32)))) <<< 0x31)⟩ : U128) =
+      ofBits (encode (.fin (decide (m = .Downward)) 0 eI)) := by
+  have hxe := Dec.C02GenCorrection.expField e eI he h1 (by omega)
+  have hsg : (if (m != RoundingMode.Downward) = true then (0 : UInt64) else 0x8000000000000000).toNat =
+      (if decide (m = .Downward) = true then 1 else 0) * 2 ^ 63 := by
+    cases m <;> rfl
+  have := Dec.C17GenNext.pack_bits _ _ (0 : UInt64) (0 : UInt64) (if decide (m = .Downward) = true then 1 else 0) (eI + 6176).toNat 0
+    hsg (by split <;> omega) hxe (by omega) rfl (by norm_num)
+  rw [UInt64.or_zero] at this
+  rw [this, encode_fin]
+
+
+/-- opposite signs, equal magnitudes: the signed zero at the clamped exponent; the indicators and the status word pass through -/
+theorem aarAddSub_zero (m : RoundingMode) (sp sz : Bool) (hne : sp ≠ sz) (e4 : Int32) (E : Int) (he4 : e4.toInt = E)
+    (hEhi : E ≤ 6111) (C4 R : U256) (f : UInt32) (b1 b2 b3 b4 : Bool) (heq : C4.toNat' = R.toNat') :
+    aarAddSub m (sgnW sz) (sgnW sp) e4 34 C4 R f b1 b2 b3 b4 =
+      .ok (ofBits (encode (zeroAt (zeroSumSign (modeOf m) sp sz) E)), b1, b2, b3, b4, f) := by
+  unfold aarAddSub
+  have hc : (sgnW sp == sgnW sz) = false := by rw [sgnW_beq]; simpa using hne
+  simp only [hc, Bool.false_eq_true, if_false, ge256_iff]
+  have hge : C4.toNat' ≤ R.toNat' := by omega
+  have hz : (mk256 (R.toNat' - C4.toNat')).toNat' = 0 := by
+    rw [mk256_val _ (by have := toNat'_lt R; omega)]; omega
+  simp only [hge, decide_true, if_true, sub256_exact R C4 hge]
+  refine (zero_take (mk256 (R.toNat' - C4.toNat')) hz _ _).trans ?_
+  have hsgn : zeroSumSign (modeOf m) sp sz = decide (m = .Downward) := by
+    unfold zeroSumSign
+    have : (sp == sz) = false := by simpa using hne
+    rw [this]
+    cases m <;> rfl
+  have hmin : c_EXP_MIN_UNBIASED.toInt = -6176 := by decide
+  unfold zeroAt clampInt
+  rw [hsgn]
+  by_cases hlt : E < -6176
+  · have hd : decide (e4 < (-0x1820 : Int32)) = true := by
+      rw [i32_lt, he4, decide_eq_true_eq]; exact hlt
+    rw [if_pos (show E < eMin from hlt)]
+    simp only [hd, if_true]
+    exact congrArg (fun w => Except.ok (w, b1, b2, b3, b4, f)) (zero_word m c_EXP_MIN_UNBIASED (-6176) hmin (by decide) (by decide))
+  · have hd : decide (e4 < (-0x1820 : Int32)) = false := by
+      rw [i32_lt, he4, decide_eq_false_iff_not]; exact hlt
+    rw [if_neg (show ¬ E < eMin from hlt), if_neg (show ¬ E > eMax from by show ¬ (6111 < E); omega)]
+    simp only [hd, Bool.false_eq_true, if_false]
+    exact congrArg (fun w => Except.ok (w, b1, b2, b3, b4, f)) (zero_word m e4 E he4 (by omega) hEhi)
+
+
+/-- digit count, then the two stages: `finish` of the non-zero sum -/
+theorem round_spec (m : RoundingMode) (s : Bool) (N : Nat) (hN : 0 < N) (h69 : N < 10 ^ 69) (E : Int)
+    (hElo : -1000000 ≤ E) (hEhi : E ≤ 6111) (e4 : Int32) (he4 : e4.toInt = E) (f : UInt32) (b1 b2 b3 b4 : Bool) :
+    ∃ i : Ind,
+      ((bid_bid_nr_digits256 (mk256 N)).bind fun ind => aarRound m (sgnW s) e4 34 ind (mk256 N) f b1 b2 b3 b4) =
+        .ok (ofBits (encode (finish (modeOf m) s N 1 E E).1), i.midLtEven, i.midGtEven, i.inexLtMid, i.inexGtMid,
+             f ||| UInt32.ofNat (finish (modeOf m) s N 1 E E).2) := by
+  have h256 : N < 2 ^ 256 := lt_trans h69 (by norm_num)
+  have hv := mk256_val N h256
+  obtain ⟨ind, hcall, hind⟩ := nr_digits256_spec (mk256 N)
+  rw [hv, if_neg (by omega)] at hind
+  have hnd : ndigits N ≤ 69 := (ndigits_le_iff hN).2 h69
+  rw [Nat.min_eq_left hnd] at hind
+  rw [hcall]
+  simp only [Except.bind]
+  by_cases h34 : N < 10 ^ 34
+  · exact caseA_spec m s (sgnW s) (sgnW_toNat s) N hN h34 E hElo hEhi e4 ind he4 hind (mk256 N) hv f b1 b2 b3 b4
+  · exact caseB_spec m s (sgnW s) (sgnW_toNat s) N (by omega) h69 E hElo hEhi e4 ind he4 hind (mk256 N) hv f b1 b2 b3 b4
+
+/-- the exact sum `±c4·10^E ± r·10^E`, delivered (the model's `addFin` with both operands at the exponent `E`) -/
+def sumD (mode : Mode) (sp sz : Bool) (c4 r : Nat) (E : Int) : Datum × Flags :=
+  if sInt sp c4 + sInt sz r = 0 then (zeroAt (zeroSumSign mode sp sz) E, 0)
+  else finish mode (decide (sInt sp c4 + sInt sz r < 0)) (sInt sp c4 + sInt sz r).natAbs 1 E E
+
+/-- **addition / subtraction and everything after it**: with `R256 = C3·10^scale`, the routine returns the exact sum, delivered -/
+theorem aarAddSub_spec (m : RoundingMode) (sp sz : Bool) (e4 : Int32) (E : Int) (he4 : e4.toInt = E)
+    (hElo : -1000000 ≤ E) (hEhi : E ≤ 6111) (C4 R : U256) (hC4 : 0 < C4.toNat') (hA : R.toNat' < 10 ^ 69)
+    (hB : C4.toNat' < 10 ^ 69) (hN : sz = sp → R.toNat' + C4.toNat' < 10 ^ 69) (f : UInt32) (b1 b2 b3 b4 : Bool) :
+    ∃ i : Ind,
+      aarAddSub m (sgnW sz) (sgnW sp) e4 34 C4 R f b1 b2 b3 b4 =
+        .ok (ofBits (encode (sumD (modeOf m) sp sz C4.toNat' R.toNat' E).1), i.midLtEven, i.midGtEven, i.inexLtMid,
+             i.inexGtMid, f ||| UInt32.ofNat (sumD (modeOf m) sp sz C4.toNat' R.toNat' E).2) := by
+  have hp : (10 : Nat) ^ 69 < 2 ^ 256 := by norm_num
+  generalize hc4 : C4.toNat' = c4 at *
+  generalize hr : R.toNat' = r at *
+  by_cases hs : sz = sp
+  · subst hs
+    have h := hN rfl
+    rw [aarAddSub_same m sz e4 C4 R f b1 b2 b3 b4 (by rw [hc4, hr]; omega), hc4, hr]
+    have hS : sumD (modeOf m) sz sz c4 r E = finish (modeOf m) sz (c4 + r) 1 E E := by
+      unfold sumD sInt
+      cases sz
+      · simp only [Bool.false_eq_true, if_false]
+        rw [if_neg (by omega), decide_eq_false (by omega)]
+        congr 1
+      · simp only [if_true]
+        rw [if_neg (by omega), decide_eq_true (by omega)]
+        congr 1
+        omega
+    rw [hS]
+    exact round_spec m sz (c4 + r) (by omega) (by omega) E hElo hEhi e4 he4 f b1 b2 b3 b4
+  · have hne : sp ≠ sz := fun h => hs h.symm
+    by_cases heq : c4 = r
+    · rw [aarAddSub_zero m sp sz hne e4 E he4 hEhi C4 R f b1 b2 b3 b4 (by rw [hc4, hr]; exact heq)]
+      have hS : sumD (modeOf m) sp sz c4 r E = (zeroAt (zeroSumSign (modeOf m) sp sz) E, 0) := by
+        unfold sumD sInt
+        rw [if_pos]
+        cases sp <;> cases sz <;> first | exact absurd rfl hne | (simp only [if_true, Bool.false_eq_true, if_false]; omega)
+      rw [hS]
+      exact ⟨⟨b1, b2, b3, b4⟩, by rw [show UInt32.ofNat 0 = 0 from rfl, UInt32.or_zero]⟩
+    · rw [aarAddSub_diff m sp sz hne e4 C4 R f b1 b2 b3 b4 (by rw [hc4, hr]; exact heq), hc4, hr]
+      by_cases hge : c4 ≤ r
+      · rw [if_pos hge]
+        have hS : sumD (modeOf m) sp sz c4 r E = finish (modeOf m) sz (r - c4) 1 E E := by
+          unfold sumD sInt
+          cases sp <;> cases sz <;> first | exact absurd rfl hne | skip
+          · simp only [if_true, Bool.false_eq_true, if_false]
+            rw [if_neg (by omega), decide_eq_true (by omega)]
+            congr 1; omega
+          · simp only [if_true, Bool.false_eq_true, if_false]
+            rw [if_neg (by omega), decide_eq_false (by omega)]
+            congr 1; omega
+        rw [hS]
+        exact round_spec m sz (r - c4) (by omega) (by omega) E hElo hEhi e4 he4 f b1 b2 b3 b4
+      · rw [if_neg hge]
+        have hS : sumD (modeOf m) sp sz c4 r E = finish (modeOf m) sp (c4 - r) 1 E E := by
+          unfold sumD sInt
+          cases sp <;> cases sz <;> first | exact absurd rfl hne | skip
+          · simp only [if_true, Bool.false_eq_true, if_false]
+            rw [if_neg (by omega), decide_eq_false (by omega)]
+            congr 1; omega
+          · simp only [if_true, Bool.false_eq_true, if_false]
+            rw [if_neg (by omega), decide_eq_true (by omega)]
+            congr 1; omega
+        rw [hS]
+        exact round_spec m sp (c4 - r) (by omega) (by omega) E hElo hEhi e4 he4 f b1 b2 b3 b4
+
+
+theorem ok_bind {α β : Type} (a : α) (f : α → Except String β) : (Except.ok a >>= f) = f a := rfl
+
+theorem i32_beq0 (a : Int32) : (a == (0 : Int32)) = decide (a.toInt = 0) := by
+  rw [Bool.eq_iff_iff, beq_iff_eq, decide_eq_true_eq, ← Int32.toInt_inj]; rfl
+
+theorem ofNat_pow_toNat (i : Nat) (h : i < 20) : (UInt64.ofNat (10 ^ i)).toNat = 10 ^ i := by
+  rw [UInt64.toNat_ofNat']
+  exact Nat.mod_eq_of_lt (lt_of_le_of_lt (Nat.pow_le_pow_right (by decide) (by omega : i ≤ 19)) (by norm_num : (10 : Nat) ^ 19 < 2 ^ 64))
+
+/-- **the scaling** `R256 = C3·10^scale` (five ranges of `scale`, tables `BID_TEN2K64`, `BID_TEN2K128`) -/
+theorem aarScale_spec (scale : Int32) (sc : Nat) (hsc : scale.toInt = sc) (hsc2 : sc ≤ 68) (C3 : U128)
+    (hA : C3.toNat' * 10 ^ sc < 10 ^ 69) (k : U256 → Except String (U128 × Bool × Bool × Bool × Bool × UInt32)) :
+    ∃ R : U256, R.toNat' = C3.toNat' * 10 ^ sc ∧ aarScale scale C3 k = k R := by
+  unfold aarScale
+  by_cases h0 : sc = 0
+  · have c0 : (scale == (0 : Int32)) = true := by rw [i32_beq0, hsc, h0]; rfl
+    simp only [c0, if_true]
+    refine ⟨⟨C3.w0, C3.w1, 0, 0⟩, ?_, rfl⟩
+    rw [h0]; unfold U256.toNat' U128.toNat'; simp
+  have c0 : (scale == (0 : Int32)) = false := by
+    rw [i32_beq0, hsc, decide_eq_false_iff_not]; omega
+  by_cases h1 : sc ≤ 19
+  · have c1 : decide (scale ≤ (0x13 : Int32)) = true := by
+      rw [i32_le, hsc, decide_eq_true_eq, show (0x13 : Int32).toInt = 19 from rfl]; omega
+    simp only [c0, c1, Bool.false_eq_true, if_false, if_true, idx_of scale sc hsc, ten2k64_get sc (by omega)]
+    obtain ⟨r, hcall, hval⟩ := Dec.C01GenArith.gen_mul_128x128_to_256 ⟨UInt64.ofNat (10 ^ sc), 0⟩ C3
+    refine ⟨r, ?_, ?_⟩
+    · rw [hval]; unfold U128.toNat'
+      show ((UInt64.ofNat (10 ^ sc)).toNat + 2 ^ 64 * (0 : UInt64).toNat) * _ = _
+      rw [ofNat_pow_toNat sc (by omega)]; simp; ring
+    · rw [ok_bind, hcall, ok_bind]
+  have c1 : decide (scale ≤ (0x13 : Int32)) = false := by
+    rw [i32_le, hsc, decide_eq_false_iff_not, show (0x13 : Int32).toInt = 19 from rfl]; omega
+  by_cases h2 : sc ≤ 38
+  · have c2 : decide (scale ≤ (0x26 : Int32)) = true := by
+      rw [i32_le, hsc, decide_eq_true_eq, show (0x26 : Int32).toInt = 38 from rfl]; omega
+    have hi : UInt64.ofInt (toI (scale - (0x14 : Int32))) = UInt64.ofNat (sc - 20) :=
+      idx_of _ _ (i32_sub scale sc 20 hsc 0x14 rfl (by omega))
+    simp only [c0, c1, c2, Bool.false_eq_true, if_false, if_true, hi, ten2k128_get (sc - 20) (by omega)]
+    obtain ⟨r, hcall, hval⟩ := Dec.C01GenArith.gen_mul_128x128_to_256 (mk128 (10 ^ (sc - 20 + 20))) C3
+    refine ⟨r, ?_, ?_⟩
+    · rw [hval, mk128_val _ (lt_of_le_of_lt (Nat.pow_le_pow_right (by decide) (by omega : sc - 20 + 20 ≤ 38)) (by norm_num)),
+        show sc - 20 + 20 = sc by omega]; ring
+    · rw [ok_bind, hcall, ok_bind]
+  have c2 : decide (scale ≤ (0x26 : Int32)) = false := by
+    rw [i32_le, hsc, decide_eq_false_iff_not, show (0x26 : Int32).toInt = 38 from rfl]; omega
+  have h18 : UInt64.ofInt (toI 0x12) = UInt64.ofNat 18 := by decide
+  have hp38 : (mk128 (10 ^ (18 + 20))).toNat' = 10 ^ 38 := mk128_val _ (by norm_num)
+  have hpw : (10 : Nat) ^ sc = 10 ^ (sc - 38) * 10 ^ 38 := by rw [← Nat.pow_add]; congr 1; omega
+  have hfit : C3.toNat' * 10 ^ (sc - 38) < 10 ^ 31 := by
+    rw [hpw, ← Nat.mul_assoc] at hA
+    have : (10 : Nat) ^ 69 = 10 ^ 31 * 10 ^ 38 := by norm_num
+    rw [this] at hA
+    exact Nat.lt_of_mul_lt_mul_right hA
+  by_cases h3 : sc ≤ 57
+  · have c3 : decide (scale ≤ (0x39 : Int32)) = true := by
+      rw [i32_le, hsc, decide_eq_true_eq, show (0x39 : Int32).toInt = 57 from rfl]; omega
+    have hi : UInt64.ofInt (toI (scale - (0x26 : Int32))) = UInt64.ofNat (sc - 38) :=
+      idx_of _ _ (i32_sub scale sc 38 hsc 0x26 rfl (by omega))
+    simp only [c0, c1, c2, c3, Bool.false_eq_true, if_false, if_true, hi, h18, ten2k64_get (sc - 38) (by omega),
+      ten2k128_get 18 (by omega)]
+    obtain ⟨r1, hcall1, hval1⟩ := Dec.C01GenArith.gen_mul_64x128_to_128 (UInt64.ofNat (10 ^ (sc - 38))) C3
+    rw [ofNat_pow_toNat (sc - 38) (by omega), Nat.mul_comm, Nat.mod_eq_of_lt (lt_trans hfit (by norm_num))] at hval1
+    obtain ⟨r, hcall, hval⟩ := Dec.C01GenArith.gen_mul_128x128_to_256 r1 (mk128 (10 ^ (18 + 20)))
+    refine ⟨r, ?_, ?_⟩
+    · rw [hval, hval1, hp38, hpw, Nat.mul_assoc]
+    · rw [ok_bind, hcall1, ok_bind, ok_bind, hcall, ok_bind]
+  · have c3 : decide (scale ≤ (0x39 : Int32)) = false := by
+      rw [i32_le, hsc, decide_eq_false_iff_not, show (0x39 : Int32).toInt = 57 from rfl]; omega
+    have hi : UInt64.ofInt (toI (scale - (0x3a : Int32))) = UInt64.ofNat (sc - 58) :=
+      idx_of _ _ (i32_sub scale sc 58 hsc 0x3a rfl (by omega))
+    simp only [c0, c1, c2, c3, Bool.false_eq_true, if_false, if_true, hi, h18, ten2k128_get (sc - 58) (by omega),
+      ten2k128_get 18 (by omega)]
+    have hw1 : C3.w1.toNat = 0 := by
+      have h20 : (10 : Nat) ^ 20 ≤ 10 ^ (sc - 38) := Nat.pow_le_pow_right (by decide) (by omega)
+      have : C3.toNat' * 10 ^ 20 ≤ C3.toNat' * 10 ^ (sc - 38) := Nat.mul_le_mul_left _ h20
+      unfold U128.toNat' at this hfit
+      omega
+    have hC3 : C3.toNat' = C3.w0.toNat := by unfold U128.toNat'; rw [hw1]; simp
+    obtain ⟨r1, hcall1, hval1⟩ := Dec.C01GenArith.gen_mul_64x128_to_128 C3.w0 (mk128 (10 ^ (sc - 58 + 20)))
+    rw [mk128_val _ (lt_of_le_of_lt (Nat.pow_le_pow_right (by decide) (by omega : sc - 58 + 20 ≤ 38)) (by norm_num)),
+      show sc - 58 + 20 = sc - 38 by omega, ← hC3, Nat.mod_eq_of_lt (lt_trans hfit (by norm_num))] at hval1
+    obtain ⟨r, hcall, hval⟩ := Dec.C01GenArith.gen_mul_128x128_to_256 r1 (mk128 (10 ^ (18 + 20)))
+    refine ⟨r, ?_, ?_⟩
+    · rw [hval, hval1, hp38, hpw, Nat.mul_assoc]
+    · rw [ok_bind, hcall1, ok_bind, ok_bind, hcall, ok_bind]
+
+
+theorem addFin_eq_sumD (mode : Mode) (sp sz : Bool) (c4 c3 sc : Nat) (E : Int) :
+    addFin mode sp c4 E sz c3 (E + sc) E = sumD mode sp sz c4 (c3 * 10 ^ sc) E := by
+  unfold addFin sumD
+  have h1 : (if E ≤ E + (sc : Int) then E else E + sc) = E := if_pos (by omega)
+  simp only [h1]
+  rw [show (E - E).toNat = 0 by omega, show (E + (sc : Int) - E).toNat = sc by omega, Nat.pow_zero, Nat.mul_one]
+
+/-- **`bid_add_and_round`** (bid128_fma.rs lines 241–664, as translated; D15 and D18 lived here).
+The caller passes the exact product `C4` (a `U256`, at the exponent `E = e4`, sign word `p_sign`), the addend's coefficient `C3`
+(sign word `z_sign`) and, through `scale = q4 − delta − q3`, the exponent `E + scale` of the addend (`q3`, `q4`, `delta` are
+used in no other way), with `p34 = 34`.  If `E ≤ 6111`, the product is not zero, both aligned operands are below `10^69`, and
+so is their sum when the signs agree, then the routine returns the canonical encoding of
+
+      addFin mode (sign of product) C4 E (sign of addend) C3 (E + scale) E
+
+— the model's exact sum `±C4·10^E ± C3·10^(E+scale)` delivered by ONE `finish` with preferred exponent `E`, or the signed zero
+of an exact cancellation at the clamped exponent (the finite clause of `fmaD`) — and the incoming status word with exactly the
+model's flags or-ed in, for every rounding mode, every incoming status word and incoming indicator values.  It never panics.
+(The four indicator outputs: the position indicators of the last rounding; the incoming values at the exact-zero exit and at
+the nearest-even overflow exit.) -/
+theorem add_and_round_spec
+    (q3 q4 e4 delta p34 : Int32) (z_sign p_sign : UInt64) (C3 : U128) (C4 : U256) (m : RoundingMode)
+    (b1 b2 b3 b4 : Bool) (f : UInt32)
+    (sz sp : Bool)
+    (hzs : z_sign = if sz = true then (0x8000000000000000 : UInt64) else 0)
+    (hps : p_sign = if sp = true then (0x8000000000000000 : UInt64) else 0)
+    (hp34 : p34 = 34)
+    (E : Int) (he4 : e4.toInt = E) (hElo : -1000000 ≤ E) (hEhi : E ≤ 6111)
+    (sc : Nat) (hsc : ((q4 - delta) - q3).toInt = (sc : Int)) (hsc2 : sc ≤ 68)
+    (hC4 : 0 < C4.toNat')
+    (hA : C3.toNat' * 10 ^ sc < 10 ^ 69) (hB : C4.toNat' < 10 ^ 69)
+    (hN : sz = sp → C3.toNat' * 10 ^ sc + C4.toNat' < 10 ^ 69) :
+    ∃ i : Dec.RH.Ind,
+      bid_add_and_round q3 q4 e4 delta p34 z_sign p_sign C3 C4 m b1 b2 b3 b4 f =
+        .ok (Dec.C02GenCorrection.ofBits (encode (addFin (Dec.C02GenCorrection.modeOf m) sp C4.toNat' E sz C3.toNat' (E + sc) E).1),
+             i.midLtEven, i.midGtEven, i.inexLtMid, i.inexGtMid,
+             f ||| UInt32.ofNat (addFin (Dec.C02GenCorrection.modeOf m) sp C4.toNat' E sz C3.toNat' (E + sc) E).2) := by
+  subst hp34 hzs hps
+  rw [aar_shape, addFin_eq_sumD]
+  show ∃ i : Dec.RH.Ind, aarScale ((q4 - delta) - q3) C3 (fun R256 => aarAddSub m (sgnW sz) (sgnW sp) e4 34 C4 R256 f b1 b2 b3 b4) = _
+  obtain ⟨R, hR, hcall⟩ := aarScale_spec ((q4 - delta) - q3) sc hsc hsc2 C3 hA
+    (fun R256 => aarAddSub m (sgnW sz) (sgnW sp) e4 34 C4 R256 f b1 b2 b3 b4)
+  rw [hcall, ← hR]
+  exact aarAddSub_spec m sp sz e4 E he4 hElo hEhi C4 R hC4 (by rw [hR]; exact hA) hB (fun h => by rw [hR]; exact hN h) f b1 b2 b3 b4
+
+
+/-! ## 10. Cases (15)–(17) of `bid128_ext_fma` -/
+
+/-- Cases (15), (16), (17) of `bid128_ext_fma` (Rust lines 3896–3935): the body of the arm taken when
+`(p34 ≤ delta ∧ delta + q3 ≤ q4) ∨ (delta < p34 ∧ p34 < delta + q3 ∧ delta + q3 ≤ q4) ∨ (delta + q3 ≤ p34 ∧ p34 < q4)` (with `delta`
+already negated: `delta = q4 + e4 − q3 − e3 > 0`) — call `bid_add_and_round`, copy its outputs, return -/
+def case1517 (q3 q4 e4 delta p34 : Int32) (z_sign p_sign : UInt64) (C3 : U128) (C4 : U256) (rnd_mode : RoundingMode)
+    (is_midpoint_lt_even_ is_midpoint_gt_even_ is_inexact_lt_midpoint_ is_inexact_gt_midpoint_ : Bool) (pfpsf_ : UInt32) :
+    Except String (U128 × Bool × Bool × Bool × Bool × UInt32) := do
+  let mut is_midpoint_lt_even : Bool := is_midpoint_lt_even_
+  let mut is_midpoint_gt_even : Bool := is_midpoint_gt_even_
+  let mut is_inexact_lt_midpoint : Bool := is_inexact_lt_midpoint_
+  let mut is_inexact_gt_midpoint : Bool := is_inexact_gt_midpoint_
+  let mut pfpsf : UInt32 := pfpsf_
+  let mut res : U128 := default
+  let mut ptr_is_midpoint_lt_even : Bool := default
+  let mut ptr_is_midpoint_gt_even : Bool := default
+  let mut ptr_is_inexact_lt_midpoint : Bool := default
+  let mut ptr_is_inexact_gt_midpoint : Bool := default
+  let t__69 ← bid_add_and_round q3 q4 e4 delta p34 z_sign p_sign C3 C4 rnd_mode is_midpoint_lt_even is_midpoint_gt_even is_inexact_lt_midpoint is_inexact_gt_midpoint pfpsf
+  is_midpoint_lt_even := t__69.2.1
+  is_midpoint_gt_even := t__69.2.2.1
+  is_inexact_lt_midpoint := t__69.2.2.2.1
+  is_inexact_gt_midpoint := t__69.2.2.2.2.1
+  pfpsf := t__69.2.2.2.2.2
+  res := t__69.1
+  ptr_is_midpoint_lt_even := is_midpoint_lt_even
+  ptr_is_midpoint_gt_even := is_midpoint_gt_even
+  ptr_is_inexact_lt_midpoint := is_inexact_lt_midpoint
+  ptr_is_inexact_gt_midpoint := is_inexact_gt_midpoint
+  return (res, ptr_is_midpoint_lt_even, ptr_is_midpoint_gt_even, ptr_is_inexact_lt_midpoint, ptr_is_inexact_gt_midpoint, pfpsf)
+
+/-- the arm returns what `bid_add_and_round` returns -/
+theorem case1517_eq (q3 q4 e4 delta p34 : Int32) (z_sign p_sign : UInt64) (C3 : U128) (C4 : U256) (m : RoundingMode)
+    (b1 b2 b3 b4 : Bool) (f : UInt32) :
+    case1517 q3 q4 e4 delta p34 z_sign p_sign C3 C4 m b1 b2 b3 b4 f =
+      bid_add_and_round q3 q4 e4 delta p34 z_sign p_sign C3 C4 m b1 b2 b3 b4 f := by
+  unfold case1517
+  simp only []
+  generalize bid_add_and_round q3 q4 e4 delta p34 z_sign p_sign C3 C4 m b1 b2 b3 b4 f = X
+  cases X with
+  | error e => rfl
+  | ok t => rfl
+
+/-- **Cases (15)–(17)**: in terms of the entry invariant — `C4 = C1·C2 ≠ 0` exactly (`q4` digits) at `e4 = e1 + e2 ≤ e3`,
+`C3` the coefficient of `z` at `e3 ≤ 6111`, `delta` (negated) `= q4 + e4 − q3 − e3`, so that `q4 − delta − q3 = e3 − e4 = sc` — the
+block returns the canonical encoding of the model's `addFin … (sign of x·y) C4 e4 (sign of z) C3 e3 e4` (the finite clause of
+`fmaD`: preferred exponent `min (e1 + e2) e3 = e4`) and its flags or-ed into the status word. -/
+theorem case1517_spec (q3 q4 e4 delta p34 : Int32) (z_sign p_sign : UInt64) (C3 : U128) (C4 : U256) (m : RoundingMode)
+    (b1 b2 b3 b4 : Bool) (f : UInt32) (sz sp : Bool)
+    (hzs : z_sign = if sz = true then (0x8000000000000000 : UInt64) else 0)
+    (hps : p_sign = if sp = true then (0x8000000000000000 : UInt64) else 0)
+    (hp34 : p34 = 34) (E : Int) (he4 : e4.toInt = E) (hElo : -1000000 ≤ E) (hEhi : E ≤ 6111)
+    (sc : Nat) (hsc : ((q4 - delta) - q3).toInt = (sc : Int)) (hsc2 : sc ≤ 68) (hC4 : 0 < C4.toNat')
+    (hA : C3.toNat' * 10 ^ sc < 10 ^ 69) (hB : C4.toNat' < 10 ^ 69)
+    (hN : sz = sp → C3.toNat' * 10 ^ sc + C4.toNat' < 10 ^ 69) :
+    ∃ i : Ind,
+      case1517 q3 q4 e4 delta p34 z_sign p_sign C3 C4 m b1 b2 b3 b4 f =
+        .ok (ofBits (encode (addFin (modeOf m) sp C4.toNat' E sz C3.toNat' (E + sc) E).1),
+             i.midLtEven, i.midGtEven, i.inexLtMid, i.inexGtMid,
+             f ||| UInt32.ofNat (addFin (modeOf m) sp C4.toNat' E sz C3.toNat' (E + sc) E).2) := by
+  rw [case1517_eq]
+  exact add_and_round_spec q3 q4 e4 delta p34 z_sign p_sign C3 C4 m b1 b2 b3 b4 f sz sp hzs hps hp34 E he4 hElo hEhi sc hsc hsc2
+    hC4 hA hB hN
+
+/-! ## 11. Examples -/
+
+-- `two_step`: 123456 was first rounded (one digit) up to 12346; chopping two more digits gives 123 (not 124: no double rounding),
+-- "inexact, below the midpoint"
+example : combine true false (specInd (12346 / 10 ^ 2) (12346 % 10 ^ 2) (10 ^ 2 / 2)) (rne 12346 2) =
+    (123, ⟨false, false, true, false⟩) := by decide
+-- 12450 was first rounded down from 12450.3: the second rounding sees a tie (124|50) and would go to the even 124; the repair gives 125
+example : combine false true (specInd (12450 / 10 ^ 2) (12450 % 10 ^ 2) (10 ^ 2 / 2)) (rne 12450 2) =
+    (125, ⟨false, false, false, true⟩) := by decide
+-- `half_step` (the D18 arm): all 2 digits are chopped, c1 = 50 is exactly half a unit; the first rounding had gone down, so 1
+example : halfOut false true 50 (5 * 10 ^ (2 - 1)) = (1, ⟨false, false, false, true⟩) := by decide
+example : halfOut true false 50 (5 * 10 ^ (2 - 1)) = (0, ⟨false, false, true, false⟩) := by decide
+example : halfOut false false 50 (5 * 10 ^ (2 - 1)) = (0, ⟨false, true, false, false⟩) := by decide
+-- `stage2` dispatch
+example : stage2 false false 77 2 3 = (0, ⟨false, false, true, false⟩) := by decide
+-- `stepC_deliver`: a carried 10^34 (delivered as 10^33, exponent + 1) stepped down is 10^34 − 1 at the exponent itself
+example : stepC false true (deliver P34 5).1 (deliver P34 5).2 = (P34 - 1, 5, false) := by decide
+-- `finish_rounded`: 123456·10^−6178 keeps 4 digits at the least exponent, inexact and tiny
+example : finish .rne false 123456 1 (-6178) (-6178) = (.fin false 1235 (-6176), fUnderflow ||| fInexact) := by decide +kernel
+example : finish .rtz true (10 ^ 40 + 1) 1 6100 6100 = (.fin true (10 ^ 33) 6107, fInexact) := by decide +kernel
+-- `aarScale_spec`: 99999·10^60 (last range: only the low word of C3 is read)
+example : (aarScale 60 ⟨99999, 0⟩ (fun R => .ok (⟨R.w0, R.w1⟩, R.w2 == 0xcd589d78f069aa44, R.w3 == 0xf31587, false, false, 0))).toOption =
+    some (⟨0xf000000000000000, 0x76d703c2e5bfa530⟩, true, true, false, false, 0) := by decide +kernel
+
+/-! `bid_add_and_round` itself (`add_and_round_spec`) on concrete operands -/
+
+-- 6 + 7 = 13, exact
+example : (bid_add_and_round 1 1 0 0 34 0 0 ⟨7, 0⟩ ⟨6, 0, 0, 0⟩ .NearestEven false false false false 0).toOption =
+    some (⟨13, 0x3040000000000000⟩, false, false, false, false, 0) := by decide +kernel
+-- the pattern of D18: (5·10^34 + 4)·10^−6211 is rounded to 34 digits first (5·10^33·10^−6210, inexact, below the value), which is
+-- exactly half of the least quantum 10^−6176; the value lies above the half, so nearest-even delivers 1·10^−6176 (not the tie's 0)
+example : (bid_add_and_round 1 35 (-6211) 34 34 0 0 ⟨4, 0⟩ ⟨0x15c3c7f400000000, 0x9a130b963a6c1, 0, 0⟩ .NearestEven false false false false 0).toOption =
+    some (⟨1, 0⟩, false, false, false, true, 0x30) := by decide +kernel
+-- the same toward zero: 0·10^−6176, inexact + underflow
+example : (bid_add_and_round 1 35 (-6211) 34 34 0 0 ⟨4, 0⟩ ⟨0x15c3c7f400000000, 0x9a130b963a6c1, 0, 0⟩ .TowardZero false false false false 0).toOption =
+    some (⟨0, 0⟩, false, false, false, true, 0x30) := by decide +kernel
+-- 5 − 5 at exponent −7000, rounding down: −0 at the least exponent; indicators and status word pass through
+example : (bid_add_and_round 1 1 (-7000) 0 34 0x8000000000000000 0 ⟨5, 0⟩ ⟨5, 0, 0, 0⟩ .Downward true false true false 7).toOption =
+    some (⟨0, 0x8000000000000000⟩, true, false, true, false, 7) := by decide +kernel
+-- (10^68 − 1)·10^6100 − 12345678901234567890·10^6140 overflows: +Inf rounding up (and to nearest), overflow + inexact
+example : (bid_add_and_round 20 68 6100 8 34 0x8000000000000000 0 ⟨12345678901234567890, 0⟩ (mk256 (10 ^ 68 - 1)) .Upward false false false false 0).toOption =
+    some (⟨0, 0x7800000000000000⟩, false, false, false, true, 0x28) := by decide +kernel
+-- −(3·10^67 + 1)·10^−30 + 99999·10^30, ties away: 34 digits, inexact
+example : (bid_add_and_round 5 68 (-30) 3 34 0 0x8000000000000000 ⟨99999, 0⟩ (mk256 (3 * 10 ^ 67 + 1)) .NearestAway false false false false 0).toOption =
+    some (⟨0xc67ad2ca64000000, 0xb048936b1b624069⟩, false, false, true, false, 0x20) := by decide +kernel
+-- and through the Cases (15)–(17) arm
+example : (case1517 1 1 0 0 34 0 0 ⟨7, 0⟩ ⟨6, 0, 0, 0⟩ .NearestEven false false false false 0).toOption =
+    some (⟨13, 0x3040000000000000⟩, false, false, false, false, 0) := by decide +kernel
 
 end Dec.C02GenFmaLow
